@@ -27,6 +27,18 @@ CfgPlain ==
                R("r1", <<G("g0", <<P("r1.g0.d0", -1)>>)>>, <<P("r1.a0", -1)>>, 0, 0, <<>>, "", FALSE, FALSE, FALSE) >>,
     hooks |-> <<>>, worlds |-> {{}}]}
 
+CfgPlain1 ==
+  {[cfg |-> << R("r0", <<G("g0", <<P("r0.g0.d0", -1)>>), G("g1", <<P("r0.g1.d0", -1)>>)>>,
+                  <<P("r0.a0", -1), P("r0.a1", 1)>>, 2, 1, <<>>, "", FALSE, FALSE, FALSE) >>,
+    hooks |-> <<>>, worlds |-> {{}}]}
+
+\* async continuation: 3-action chain, zero delays, a second ruleset pausing independently
+CfgAsync ==
+  {[cfg |-> << R("r0", <<G("g0", <<P("r0.g0.d0", -1)>>)>>,
+                  <<P("r0.a0", -1), P("r0.a1", -1), P("r0.a2", -1)>>, 0, 2, <<>>, "", FALSE, FALSE, FALSE),
+               R("r1", <<G("g0", <<P("r1.g0.d0", -1)>>)>>, <<P("r1.a0", -1)>>, 0, 0, <<>>, "", FALSE, FALSE, FALSE) >>,
+    hooks |-> <<>>, worlds |-> {{}}]}
+
 \* drop-ins: permissions, disable-on-drop-in, two-ruleset units, hooks
 CfgDrop ==
   {[cfg |-> << R("r0", <<G("g0", <<P("r0.g0.d0", -1)>>)>>, <<P("r0.a0", -1)>>, 0, 0, <<>>, "", TRUE, TRUE, TRUE),
@@ -49,6 +61,7 @@ CfgCg ==
                  {[path |-> <<"a","x">>, tags |-> {}], [path |-> <<"a","y">>, tags |-> {"f"}]} }]}
 
 \* ---------------------------------------------------------------------------
+NoUnits == {}
 MCInit == Init /\ mcSerial = 1 /\ mcTicks = 0 /\ mcOps = 0 /\ mcWorlds = {}
 
 Announce(ids) ==
@@ -124,5 +137,55 @@ HookOrderOk ==
 \* the state graph is finite: nothing to constrain beyond the budgets above
 MCConstraint == mcTicks <= MaxTicks /\ mcOps <= MaxOps
 
-\* vacuity guards, reported by the checker from TLCGet counters
+\* ---------------------------------------------------------------------------
+\* Vacuity guards.  Each witness is a situation a property talks about; the checker runs a
+\* reduced configuration with one worker, accumulates the names of the witnesses seen in
+\* register 2 and fails (as a model failure, not as a violation) if a required one is missing.
+TickDone == phase = "idle" /\ tlog # <<>>
+ActsOf(rk) == CallsOf("act", rk)
+DetsOf(rk) == CallsOf("det", rk)
+Witnesses ==
+  (IF TickDone /\ \E rk \in EvaluatedRks : FirstFired(rk) # 0 /\ ActsOf(rk) = <<>> /\ rk \in DOMAIN tpre
+                                            /\ tpre[rk].pauseUntil > 0 /\ ~tpre[rk].susp.has
+   THEN {"PausedBlocksFiring"} ELSE {}) \cup
+  (IF TickDone /\ \E rk \in EvaluatedRks : rk \in DOMAIN tpre /\ tpre[rk].susp.has /\ ActsOf(rk) # <<>>
+   THEN {"Resumed"} ELSE {}) \cup
+  (IF TickDone /\ \E rk \in EvaluatedRks : rk \in DOMAIN tpre /\ tpre[rk].susp.has /\ ActsOf(rk) # <<>> /\ FirstFired(rk) = 0
+   THEN {"ResumedWithoutFiring"} ELSE {}) \cup
+  (IF TickDone /\ \E rk \in EvaluatedRks : rk \in DOMAIN tpre /\ tpre[rk].susp.has /\ ActsOf(rk) # <<>> /\ FirstFired(rk) # 0
+   THEN {"ResumedWhileFiring"} ELSE {}) \cup
+  (IF \E rk \in DOMAIN lastStop : lastStop[rk].has /\ lastStop[rk].d # defs[rk].delay
+   THEN {"OwnDelayApplied"} ELSE {}) \cup
+  (IF TickDone /\ \E rk \in EvaluatedRks : ActsOf(rk) # <<>> /\ ActsOf(rk)[Len(ActsOf(rk))].ret = CONTINUE
+   THEN {"ChainRanOffEnd"} ELSE {}) \cup
+  (IF TickDone /\ \E rk \in EvaluatedRks : FirstFired(rk) >= 2 THEN {"LaterGroupFired"} ELSE {}) \cup
+  (IF TickDone /\ \E rk \in EvaluatedRks : \E g \in DOMAIN defs[rk].groups : Fired(rk, g) /\ ASYNC \in GroupRets(rk, g)
+   THEN {"AsyncDetectorCountsAsContinue"} ELSE {}) \cup
+  (IF TickDone /\ \E rk \in EvaluatedRks : ActsOf(rk) # <<>> /\ rk \in DOMAIN tpre /\ tpre[rk].pauseUntil > 0
+                    /\ DetsOf(rk)[Len(DetsOf(rk))].t = tpre[rk].pauseUntil
+   THEN {"RunsAgainExactlyAtBoundary"} ELSE {}) \cup
+  (IF TickDone /\ \E rk \in EvaluatedRks : rk \in DOMAIN tpre /\ tpre[rk].susp.has /\ st[rk].susp.has
+   THEN {"PausedTwiceInARow"} ELSE {}) \cup
+  (IF \E i \in DOMAIN bases : ~Enabled(bases[i]) THEN {"BaseDisabled"} ELSE {}) \cup
+  (IF \E i \in DOMAIN bases : Len(bases[i].dropins) >= 2 THEN {"TwoDropinsOnOneBase"} ELSE {}) \cup
+  (IF \E i \in DOMAIN ops : ops[i].op = "remove" /\ \E j \in 1..(i-1) : ops[j].tag = ops[i].tag /\ ops[j].op = "add"
+   THEN {"RemovedAnAddedTag"} ELSE {}) \cup
+  (IF \E i, j \in DOMAIN ops : i < j /\ ops[i].tag = ops[j].tag /\ ops[i].op = "add" /\ ops[j].op = "add"
+   THEN {"ReAddedTag"} ELSE {}) \cup
+  (IF \E i \in DOMAIN hooks : hooks[i].tag # "" THEN {"DropinHook"} ELSE {}) \cup
+  (IF \E rk \in DOMAIN insts : Cardinality(DOMAIN insts[rk]) >= 2 THEN {"TwoInstances"} ELSE {}) \cup
+  (IF TickDone /\ \E rk \in DOMAIN defs : defs[rk].kind = "inst" /\ rk \in DOMAIN tpre /\ tpre[rk] # FreshSt
+                     /\ rk \in EvaluatedRks
+   THEN {"InstanceStatePersisted"} ELSE {}) \cup
+  (IF \E rk \in DOMAIN defs : defs[rk].kind = "inst" /\ phase = "idle" /\ ~\E t \in DOMAIN insts :
+                                   \E p \in DOMAIN insts[t] : insts[t][p] = rk
+   THEN {"InstanceDiscarded"} ELSE {}) \cup
+  (IF \E a, b \in DOMAIN defs : a < b /\ defs[a].kind = "inst" /\ defs[b].kind = "inst" /\ defs[a].target = defs[b].target
+   THEN {"InstanceRecreatedAfterAbsence"} ELSE {})
+
+WitnessInit == TLCSet(2, {})
+WitnessAcc == TLCSet(2, TLCGet(2) \cup Witnesses)
+WitnessReport == PrintT(<<"WITNESSES", TLCGet(2)>>)
+MCWitInit == MCInit /\ WitnessInit
+MCWitSpec == MCWitInit /\ [][MCNext]_<<vars, mcvars>>
 =============================================================================
